@@ -140,11 +140,16 @@ pub fn params_cases(ctx: &mut Ctx, kmax: u32, srs_seed: u64) {
         if !ok_fresh {
             ctx.oracle_fail("setup-lagrange-basis", "g_lagrange of unsafe_setup is not [L_i(s)]G", json!({"k": kp, "srs_seed": srs_seed}));
         }
+        // [s^i]G for the monomial basis, read from the byte image
+        let ok_g = slice_params(&fresh_b, SerdeFormat::RawBytes)
+            .map(|(_, gs, _, _, _)| gs.iter().enumerate().all(|(i, c)| *c == g1_bytes(&(g * s.pow_vartime([i as u64])), SerdeFormat::RawBytes)))
+            .unwrap_or(false);
+        let t = POOLS[kp as usize % POOLS.len()];
         ctx.case(
             "lagrange:setup",
             kp > 0,
-            &format!("lagrange via=setup k={kp} s={}", fhex(&s)),
-            &if ok_fresh { lag.iter().map(fhex).collect::<Vec<_>>().join(",") } else { "MISMATCH".into() },
+            &format!("lagrange via=setup t={t} k={kp} s={}", fhex(&s)),
+            &if ok_fresh { format!("g={} {}", ok_g as u8, lag.iter().map(fhex).collect::<Vec<_>>().join(",")) } else { "MISMATCH".into() },
         );
         for (pi, &t) in POOLS.iter().enumerate() {
             if kp == 0 && pi > 0 {
